@@ -54,7 +54,7 @@ def gen_ds(rng, numeric=False, dims=None, axes=None, keys=None, alldim=None):
             if alldim and alldim not in vd:
                 vd.insert(rng.randint(0, len(vd)), alldim)
         vs[k] = {"dims": list(vd), "labels": [list(axes[d][0]) for d in vd], "kinds": [axes[d][1] for d in vd],
-                 "values": gen.values(rng, tuple(len(axes[d][0]) for d in vd), rng.choice('ffi')), "attrs": {"vm": k}}
+                 "values": gen.values(rng, tuple(len(axes[d][0]) for d in vd), rng.choice('ffi'), nan=rng.choice([0, 0, 0.25])), "attrs": {"vm": k}}
     return {"axes": axes, "vars": vs, "dims": list(dims)}
 
 
@@ -78,6 +78,15 @@ def gen_case(rng):
     d = rng.choice(used)
     lab, kind = dsp["axes"][d]
     n = len(lab)
+    if what in ('reindex', 'take_axis') and kind == 's' and n >= 2 and rng.random() < 0.2:
+        # a label occurring twice on the operated axis: whatever the DimArray operation makes of it, the Dataset one must agree
+        lab = list(lab)
+        lab[-1] = lab[0]
+        dsp["axes"][d] = (lab, kind)
+        for v_ in dsp["vars"].values():
+            for j_, q_ in enumerate(v_["dims"]):
+                if q_ == d:
+                    v_["labels"][j_] = list(lab)
     c = {"what": what, "ds": dsp, "d": d, "by_pos": rng.random() < 0.4}
     if what in ('take', 'loc', 'sel'):
         form = rng.choice(['scalar', 'list', 'slice', 'multi'])
